@@ -105,7 +105,7 @@ def analyse(unit, g, res):
                         ctx = o['ctx']
                 if o['o'] == 'repo' and where is None:
                     where = f"{o['file']}:{o['line']}"
-        for s in prim:
+        for s in prim + [x for x in spans if not x.get('is_primary')]:
             for l in range(s['line_start'], min(s['line_end'], s['line_start'] + 12) + 1):
                 if 1 <= l <= len(lines):
                     m = G.LABEL_RX.search(lines[l - 1])
